@@ -133,6 +133,7 @@ class Plans(object):
         each.  Such entries are merged in order of arrival: the model's n-th request carrying the masked payload gets
         what the n-th such request got from the worker."""
         def entry(fn, k, p, replies):
+            p = model_payload(p)
             sent = self.sent.get(fn, {}).get(k)
             if sent is None or len(sent) != len(replies):       # a table filled in from outside: no delays known
                 return [p, replies]
@@ -162,6 +163,32 @@ class Plans(object):
                     rows.append([g[0][1], [x[1] for x in merged], [x[2] for x in merged]])
             out[fn] = rows
         return out
+
+
+def model_payload(x):
+    """A payload as the model will produce it where it carries an Error Output *inside a JSON text* (an Error Output
+    caught into the data and passed through `States.JsonToString` into a Task's Parameters): the model's Cause is
+    "<cause>", and its `States.JsonToString` prints like the engine's (`json.dumps`, insertion order) — so the text is
+    parsed, the Cause texts in it masked, and printed again the same way.  (Cause texts that are plain members are masked
+    by the driver itself when it looks a payload up.)"""
+    if isinstance(x, dict):
+        return {k: model_payload(v) for k, v in x.items()}
+    if isinstance(x, list):
+        return [model_payload(v) for v in x]
+    if isinstance(x, str) and '"Cause"' in x:
+        try:
+            j = json.loads(x)
+        except ValueError:
+            return x
+        if isinstance(j, (dict, list)):
+            def walk(y):
+                if isinstance(y, dict):
+                    return {k: ("<cause>" if k == "Cause" and "Error" in y and isinstance(v, str) else walk(v)) for k, v in y.items()}
+                if isinstance(y, list):
+                    return [walk(v) for v in y]
+                return model_payload(y)
+            return json.dumps(walk(j))
+    return x
 
 
 def mask_cause(x):
@@ -352,8 +379,8 @@ def _request_instants(m, requests):
 
 def replay_overrun(m, requests, timed):
     """The oracle the model is given is the *recording* of what the workers answered in this engine run, per (function,
-    payload) in order of arrival.  When a fan-out attempt fails the engine cuts the siblings short (and launches no further
-    Map batch) while the reference semantics runs every branch to its end: a sibling's further requests then consume
+    payload) in order of arrival.  When a fan-out attempt fails the engine cuts the siblings short while the reference
+    semantics runs every branch (of the failing batch) to its end: a sibling's further requests then consume
     entries of the recording that the engine gave to *later* requests carrying the same payload (the next attempt of a
     retried fan-out), and from there on the model is answered differently from the engine.  Under the canonical schedule
     `settle_oracle` repairs the recording (the model's phantom requests are recognisable by their instants); under any
